@@ -45,6 +45,9 @@ ASSUMPTIONS = [
 ]
 
 FAIL_TEXT = {
+    "inherited-signal-redefined": "a role that extends another and declares an inherited signal again is accepted; its flattened print holds the signal twice and is rejected on reload (duplicate signal name)",
+    "result-config-hash-is-not-the-hash-of-config": "the ConfigHash that assemble() stores in result.js is not the FNV-32 of the Config stored next to it: configurations that print differently can get the same configuration id",
+    "result-config-is-not-the-printed-configuration": "the Config that assemble() stores in result.js is not the printed configuration",
     "watches-before-computes": "an observer declared before the member that computes the variable it watches is printed first: the printed configuration is rejected (variable not defined)",
     "uses-before-computes": "a member declared before the member that computes a variable it uses in an expression is printed first: the printed configuration is rejected (variable not defined)",
     "substituted-value-contains-parameter-reference": "a substituted parameter value containing ~name~ is printed verbatim and expanded again on reload (undefined parameter)",
@@ -162,7 +165,7 @@ def run(tier, seed):
         "evaluations": summary["Cases"],
         "distinct_nontrivial": summary["DistinctNontrivial"],
         "exhaustive": False,
-        "rule": "grammar-based generator of VALID configurations: 1-4 roles (inheritance, actions, cleanup, spotlight, the three signal kinds with the four time stamp groups, regexps holding #, ~p~, backslashes and % sequences; every free-text field - commands, with-values, titles, authors, attention, labels, expression literals - also drawn with %s %d %% %!s %[1]d and a lone trailing %), single and multi-actor casts (`x* play N roles`, plural role names, `with` environments, multi-line ones), multi-line commands, scenes (entails for an actor / every role, `?` marks, empty action lists, mood starts / ends), several merged storylines with + groups, . and _, literal edits, repeat from / count / always / time, tempo; an audience of up to 6 members whose clauses (watches signal / every role / variable, measures, only helps, audits, expects with the ten modalities, expects like, collects, computes over generated expressions with signal references, arrays and functions) are generated one at a time for a random member, i.e. interleaved across members subject to definition-before-use; interpretation clauses incl. the `ignore <result>` shorthand; title / author / attention.  Presentation: free white space, comments, blank lines, continuation lines between tokens, several sections per kind, empty sections, 0-3 parameters (-D only, in-file default only, both with -D winning, duplicate defaults) planted in substituted fields, includes (siblings, sub-directories, -I path, nested to depth 3, parametrised names).  10% of the cases plant one of the listed defect shapes (or a repaired one, as regression).  Every case is loaded as presented, as an inlined plain variant, again from its printed text, and again from the commented -p text; non-trivial = accepted with a cast, a non-empty compiled play and an audience; distinct by printed text.",
+        "rule": "grammar-based generator of VALID configurations: 1-4 roles (inheritance, actions, cleanup, spotlight, the three signal kinds with the four time stamp groups, regexps holding #, ~p~, backslashes and % sequences; every free-text field - commands, with-values, titles, authors, attention, labels, expression literals - also drawn with %s %d %% %!s %[1]d and a lone trailing %), single and multi-actor casts (`x* play N roles`, plural role names, `with` environments, multi-line ones), multi-line commands, scenes (entails for an actor / every role, `?` marks, empty action lists, mood starts / ends), several merged storylines with + groups, . and _, literal edits, repeat from / count / always / time, tempo; an audience of up to 6 members whose clauses (watches signal / every role / variable, measures, only helps, audits, expects with the ten modalities, expects like, collects, computes over generated expressions with signal references, arrays and functions) are generated one at a time for a random member, i.e. interleaved across members subject to definition-before-use; interpretation clauses incl. the `ignore <result>` shorthand; title / author / attention.  Presentation: free white space, comments, blank lines, continuation lines between tokens, several sections per kind, empty sections, 0-3 parameters (-D only, in-file default only, both with -D winning, duplicate defaults) planted in substituted fields, includes (siblings, sub-directories, -I path, nested to depth 3, parametrised names).  10% of the cases plant one of the listed defect shapes, a repaired one as regression, or a near-miss that must be refused at first load (extends + an inherited signal declared again); 15% of the valid cases carry a parameter defined empty with -D over a non-empty in-file default.  Every accepted case also goes through the real assemble(): result.js Config / ConfigHash = FNV-32(Config) / ConfigHTML / Steps.  Every case is loaded as presented, as an inlined plain variant, again from its printed text, and again from the commented -p text; non-trivial = accepted with a cast, a non-empty compiled play and an audience; distinct by printed text.",
         "samples": summary["Samples"][:3],
         "distribution": {k: summary[k] for k in (
             "Cases", "Accepted", "Rejected", "Risks", "Fails", "Kinds", "WithParams", "WithIncludes", "WithExtends",
